@@ -27,6 +27,10 @@ ViewsOK(v) ==
   /\ ~v.oob
   /\ v.byidx = v.rows
   /\ v.maxnl = (IF Len(names) = 0 THEN 0 ELSE Max({Len(names[i]) : i \in 1..Len(names)}))
+  \* whatever the names, the by-name accessors agree with one another: they designate ONE row of the list
+  /\ \A k \in 1..Len(v.byname) :
+        LET q == v.byname[k] IN
+        q.f => q.id >= 0 /\ q.id < Len(v.rows) /\ v.rows[q.id + 1].n = q.n /\ q.s = v.rows[q.id + 1].s
   /\ NoDup(names) =>
        \A k \in 1..Len(v.byname) :
           LET q == v.byname[k]  j == FirstIdx(names, LAMBDA x : x = q.n) IN
